@@ -447,6 +447,25 @@ fn scenarios_c11(tier: Tier) -> Vec<Scenario> {
     out
 }
 
+/// flush / inspect / progress while a chain is inside `record_sample` (it holds its trace lock
+/// across a scheduling point: a store that takes time)
+fn scenarios_c11_slow_store(tier: Tier) -> Vec<Scenario> {
+    let mut out = vec![];
+    let cfgs: Vec<(usize, usize)> = tier.pick(vec![(1, 1), (2, 1)], vec![(1, 1), (2, 1), (2, 2)]);
+    let scripts: Vec<Vec<Op>> = tier.pick(
+        vec![vec![Op::Flush], vec![Op::Pause, Op::Flush, Op::Resume]],
+        vec![vec![Op::Flush], vec![Op::Flush, Op::Flush], vec![Op::Progress, Op::Flush], vec![Op::Inspect, Op::Flush], vec![Op::Pause, Op::Flush, Op::Resume]],
+    );
+    for &(ch, co) in &cfgs {
+        for sc in &scripts {
+            let mut s = base(format!("DiagNuts/c{ch}k{co}/slow-store/{}/WaitLong", script_name(sc)), Preset::DiagNuts, ch, co, sc.clone(), Terminal::WaitLong, tier.pick(1, 2));
+            s.plan.slow_store = true;
+            out.push(s);
+        }
+    }
+    out
+}
+
 fn scenarios_c12(tier: Tier) -> Vec<Scenario> {
     let scripts: Vec<Vec<Op>> = vec![
         vec![Op::Pause, Op::Sleep, Op::Resume],
@@ -685,7 +704,7 @@ fn main() {
 
     let mut scenarios = match id.as_str() {
         "C10" => scenarios_c10(tier),
-        "C11" => scenarios_c11(tier),
+        "C11" => { let mut v = scenarios_c11(tier); v.extend(scenarios_c11_slow_store(tier)); v }
         "C12" => scenarios_c12(tier),
         _ => scenarios_c13(tier),
     };
